@@ -1,7 +1,7 @@
 (* "All sequences of safe API calls": handles (what safe code can hold after loading a boot
    information) and operations (the public, safe API functions applicable to each).  A program is a
    list of (index into the pool of handles obtained so far, operation). *)
-Require Import Bytes Outcome Layout Common TagType Mbi MbiTags Strings MbiAccess.
+Require Import Bytes Outcome Layout Common TagType Mbi MbiTags Strings MbiAccess Debug.
 From Coq Require Import String.
 Open Scope string_scope.
 Open Scope N_scope.
@@ -29,7 +29,9 @@ Inductive op :=
 | OMemoryAreas                          (* MemoryMapTag::memory_areas / EFIMemoryMapTag::memory_areas *)
 | OLen                                  (* ExactSizeIterator::len *)
 | OSections | OBufferType | OChecksumValid | OMemoryModel
-| OSecField (which : N)                 (* section_type, flags, start/end address, size, addralign, name address *).
+| OSecField (which : N)                 (* section_type, flags, start/end address, size, addralign, name address *)
+| OElfSectionsDeprecated                (* BootInformation::elf_sections() *)
+| ODebug.                               (* `{:?}` of the handle *)
 
 Definition ret (l : list handle) : res (list handle) := Val l.
 
@@ -41,6 +43,14 @@ Definition step (p : profile) (m : mem) (h : handle) (o : op) : res (list handle
   | HBoot r, OEfiMemoryMapTag => x <- efi_memory_map_tag p m r ;; ret (match x with Some t => [HTag KEfiMmap t] | None => [] end)
   | HBoot r, OFramebufferTag =>
       x <- framebuffer_tag p m r ;; ret (match x with Some (Val t) => [HTag KFramebuffer t] | _ => [] end)
+  | HBoot r, OElfSectionsDeprecated =>
+      x <- elf_sections_deprecated p m r ;; ret (match x with Some it => [HElfIter it] | None => [] end)
+  | HBoot r, ODebug => _ <- dbg_boot p m r ;; ret [HVal]
+  | HTag k t, ODebug => _ <- dbg_kind p k m t ;; ret [HVal]
+  | HEfiIter it, ODebug => _ <- dbg_efi_iter p m it ;; ret [HVal]
+  | HElfIter it, ODebug => _ <- elf_take 7 p m it ;; ret [HVal]
+  | HModIter r nxt, ODebug =>
+      _ <- snd (modules_run (iter_fuel (tags_len r)) p m (tags_b r) (tags_len r) nxt) ;; ret [HVal]
   | HIter r nxt, ONext =>
       x <- tagiter_next p HTagH m (tags_b r) (tags_len r) nxt ;;
       ret (match x with (Some g, n') => [HIter r n'; HGen g] | (None, n') => [HIter r n'] end)
